@@ -13,6 +13,8 @@ def main(argv=None):
                     choices=['quick', 'thorough'])
     ap.add_argument('--replay')
     ap.add_argument('--seed', type=int)
+    ap.add_argument('--regress-only', action='store_true',
+                    help='replay the saved regression inputs and stop')
     a = ap.parse_args(argv)
     from mv import runner
     seed = a.seed if a.seed is not None else runner.seed_from_env()
@@ -41,6 +43,10 @@ def main(argv=None):
                 prop, herr[0][-1500:]))
             return 2
         os.environ['VERIF_REGRESS_N'] = str(n)
+        if a.regress_only:
+            print('%s regression tier: %d saved inputs replayed, all pass'
+                  % (prop, n))
+            return 0
         return mod.main(a.tier, seed)
     except SystemExit:
         raise
